@@ -79,8 +79,9 @@ def run(tier, seed):
     ntexts, maxtok = (300, 4) if tier == "quick" else (4000, 6)
     stimuli = []
 
-    def add(text, cuts, entry, base=0, ffmt="", full=""):
-        stimuli.append({"id": len(stimuli) + 1, "text": text, "cuts": cuts, "entry": entry, "base": base, "ffmt": ffmt, "full": full})
+    def add(text, cuts, entry, base=0, ffmt="", full="", eofwith=False):
+        stimuli.append({"id": len(stimuli) + 1, "text": text, "cuts": cuts, "entry": entry, "base": base, "ffmt": ffmt, "full": full,
+                        "eofwith": eofwith})
 
     for text in texts(rng, ntexts, maxtok):
         n = len(text.encode())
@@ -88,6 +89,11 @@ def run(tier, seed):
         for cuts in cutsets(rng, n, True):
             for entry in (STREAM_ENTRIES if cuts else STREAM_ENTRIES + WHOLE_ENTRIES):
                 add(text, cuts, entry)
+        # (a') the stream reports its end together with the last bytes (io.Reader allows n > 0 with io.EOF): whole, cut once
+        # at every place in the last third of the text, bytewise
+        for cuts in [[]] + [[c] for c in range(max(1, n - 1 - n // 3), n)] + ([list(range(1, n))] if n > 1 else []):
+            for entry in STREAM_ENTRIES:
+                add(text, cuts, entry, eofwith=True)
         if rng.random() < 0.15:
             add(text, [], "clread")
             add(text, [rng.randrange(1, n)] if n > 1 else [], "clread")
@@ -105,6 +111,8 @@ def run(tier, seed):
             for cuts in ([[]] + ([[rng.randrange(1, m)]] if m > 1 else [])):
                 for entry in (["stream", "each", "stream-one"] if cuts else ["stream", "push", "readone", "rfs", "clseek"]):
                     add(pre, cuts, entry, full=text)
+                if k % 3 == 0:
+                    add(pre, cuts, "stream" if cuts else "each", full=text, eofwith=True)
     open_feats = {f["feature"]: f for f in common.load_findings(PROP) if f.get("status") == "open"}
     events = pipeline.drive(vdrive, "c02", stimuli, chunk=5000)
     res = pipeline.accept(SPEC, "ReaderTrace", "ReaderTrace.cfg", events, timeout=1500)
@@ -128,7 +136,7 @@ def run(tier, seed):
     rep.cov.update({"states": res["states"], "transitions": res["lines"], "traces_validated_against_impl": len(stimuli),
                     "evaluations": len(stimuli), "distinct_nontrivial": len({(s["text"], s["base"], s["ffmt"]) for s in stimuli}),
                     "rule": f"{ntexts} balanced texts of <= {maxtok} tokens from a {len(POOL)}-token pool x (every single cut, chunk sizes 1/2/3/7, "
-                            "random multi-cuts) x 5 stream entry points (+ repeated ReadOne and read-from-string uncut), again under two random "
+                            "random multi-cuts) x 5 stream entry points, streams that report their end together with the last bytes (whole, cut in the last third, bytewise) (+ repeated ReadOne and read-from-string uncut), again under two random "
                             "(*read-base*, *read-default-float-format*) settings, and every proper prefix of every text (whole and cut once); each "
                             "event carries the one-shot ReadString result of the same text under the same settings and is judged by the TLA+ "
                             "acceptor ReaderTrace (delivery independence; form spans from the per-code-point structure machine for positions, "
